@@ -6,7 +6,7 @@
 From RX Require Import Base.Prelude Base.InvList Tables.Consts Model.Case Model.Op Model.Engine Model.Matcher
      Model.Compiler Model.Api Spec.Syntax Spec.Sem Spec.Parse Proofs.EngineFacts Proofs.MatcherFacts
      Proofs.EngineCorollaries Proofs.SmallFacts Proofs.NullableFacts Proofs.ScanFacts Proofs.OrderFacts
-     Proofs.FrameFacts Proofs.FragmentApi Proofs.PlainPattern Proofs.GroupGrammar Proofs.GroupSpec.
+     Proofs.FrameFacts Proofs.FragmentApi Proofs.PlainPattern Proofs.GroupGrammar Proofs.GroupSpec Spec.Repl Proofs.ReplacePlain.
 
 Definition span_of (x : nat * nat * env) : nat * nat := (fst (fst x), snd (fst x)).
 
@@ -111,7 +111,9 @@ Theorem grammar_tokens_are_spec_pieces xpath a fls input :
         /\ (r_nullable re = false ->
             scan (matches (r_prog re) input) input (length input + 2) 0 st0 = map span_of (spec_spans sf input r)
             /\ tok_all (matches (r_prog re) input) input (S (S (S (length input)))) {| t_prev := Some 0; t_ms := st0 |}
-               = Ok (pieces input (map span_of (spec_spans sf input r)) 0))
+               = Ok (pieces input (map span_of (spec_spans sf input r)) 0)
+            /\ (forall repl, plain repl = true ->
+                  replace_all re input repl = Ok (join repl (pieces input (map span_of (spec_spans sf input r)) 0))))
   | _ => True
   end.
 Proof.
@@ -122,7 +124,7 @@ Proof.
   set (pat := show_a a).
   destruct (parse_expr_grammar pat xpath (f_case fl) (f_single fl) [] (f_multi fl) 0
               (eq_refl : (N.of_nat (length (@nil N)) < umax)%N) a Hok eq_refl)
-    as (top & st' & Eparse & Hi & Hb & _ & _ & Hfr & _).
+    as (top & st' & Eparse & Hi & Hb & _ & _ & Hfr & _ & Hps).
   assert (Ecomp : compile true fl pat
                   = Ok (mk_program_unopt pat top (parens st') (f_case fl) (f_multi fl) false false)).
   { unfold compile. replace (f_literal fl) with false by congruence. replace (f_ws fl) with false by congruence.
@@ -134,7 +136,7 @@ Proof.
   assert (Facts : forall inp, (N.of_nat (length inp) < umax)%N -> simple inp (f_case fl) (f_multi fl) false (parens st') top
                    /\ (forall p, p <= length inp -> Rop inp (f_case fl) (f_multi fl) top p = DaO inp (f_case fl) (f_multi fl) a p)).
   { intros inp Hfi. destruct (parse_expr_grammar pat xpath (f_case fl) (f_single fl) inp (f_multi fl) (parens st') Hfi a Hok eq_refl)
-      as (top' & st'' & Eparse' & _ & _ & G & _ & _ & S0).
+      as (top' & st'' & Eparse' & _ & _ & G & _ & _ & S0 & _).
     rewrite Eparse in Eparse'. injection Eparse' as <- <-. split; [exact G|exact S0]. }
   pose proof (fragment_no_panic_no_out prog [] (proj1 (Facts [] eq_refl)) Hun 0 st0 (le_n 0) eq_refl) as NP0.
   destruct (spec_parse_grammar xpath input sf Hfit a Hok) as (r & Espec & _ & Sr).
@@ -146,8 +148,13 @@ Proof.
   { intros m Hm. cbn [p_case p_multi p_op prog mk_program_unopt].
     rewrite (proj2 (Facts input Hfit) m Hm), A1, A2. exact (Sr m [] Hm). }
   pose proof (scan_spec_spans prog input sf r (proj1 (Facts input Hfit)) Hfr Hun (proj1 (Facts [] eq_refl)) Hnn HE) as SS.
-  split; [exact SS|].
-  rewrite (fragment_tokenize prog input (proj1 (Facts input Hfit)) Hfr Hun (proj1 (Facts [] eq_refl)) Hnn
-             (S (length input)) 0 st0 eq_refl ltac:(lia) ltac:(lia)).
-  replace (S (S (length input))) with (length input + 2) by lia. rewrite SS. reflexivity.
+  split; [exact SS|]. split.
+  { rewrite (fragment_tokenize prog input (proj1 (Facts input Hfit)) Hfr Hun (proj1 (Facts [] eq_refl)) Hnn
+               (S (length input)) 0 st0 eq_refl ltac:(lia) ltac:(lia)).
+    replace (S (S (length input))) with (length input + 2) by lia. rewrite SS. reflexivity. }
+  intros repl Hpl. unfold replace_all, replace, replace_gen. cbn [r_nullable r_prog p_literal p_maxparens prog mk_program_unopt].
+  destruct (parens st') as [|maxc] eqn:Ep; [lia|].
+  rewrite (replace_plain (matches prog input) maxc input repl minv
+             (fragment_good_step prog input (proj1 (Facts input Hfit)) Hfr Hun (proj1 (Facts [] eq_refl)) Hnn) Hpl st0 eq_refl).
+  rewrite SS. reflexivity.
 Qed.
